@@ -256,7 +256,7 @@ func (c *Ctx) accountLayouts() {
 			q := callQName(cl.Common())
 			switch q {
 			case "strings.Trim", "strings.TrimRight", "strings.TrimLeft":
-				if len(cl.Common().Args) > 0 && strings.Join(leaves(cl.Common().Args[0]), ",") == "addr" {
+				if len(cl.Common().Args) > 0 && strings.Join(leaves(cl.Common().Args[0]), ",") == "#0" {
 					cut = append(cut, q)
 				}
 			}
